@@ -441,7 +441,7 @@ class XCodeBackend(backends.Backend):
                 if isinstance(s, mesonlib.File):
                     if '/' in s.fname:
                         # From the top level down, add the folders containing the source file.
-                        folder = os.path.split(os.path.dirname(s.fname))
+                        folder = tuple(os.path.dirname(s.fname).split('/'))
                         while folder:
                             fpath = os.path.join(*folder)
                             # Multiple targets might use the same folders, so store their targets with them.
